@@ -420,9 +420,17 @@ def r3_generators(ctx, repo):
         bad = None
         unknown = None
         n = 0
+        # the vector that is returned (appends to other lists - a list of bounds, a temporary - are not coordinates)
+        rv0 = rets[-1].value
+        while isinstance(rv0, ast.Call) and isinstance(rv0.func, ast.Attribute) and rv0.func.attr == "copy":
+            rv0 = rv0.func.value
+        if isinstance(rv0, ast.Call) and access_path(rv0.func) == "list" and rv0.args:
+            rv0 = rv0.args[0]
+        vec = access_path(rv0)
         for p in Enumerator(loop_counts=(0, 1)).function_paths(body_fn(lp.body, fn.args, lp.lineno)):
             n += 1
-            apps_ = [(e.node, c) for e in p.events if e.kind == "stmt" for c in calls_in(e.node) if method_call(c) and method_call(c)[1] == "append"]
+            apps_ = [(e.node, c) for e in p.events if e.kind == "stmt" for c in calls_in(e.node) if method_call(c) and method_call(c)[1] == "append"
+                     and (vec is None or access_path(method_call(c)[0]) == vec)]
             apps = [c for _, c in apps_]
             if len(apps) != 1:
                 bad = bad or "%d coordinates appended for one parameter on the path [%s]" % (len(apps), p.describe(4))
